@@ -55,6 +55,12 @@ def own_run(model_bytes, key, sample):
   r(**feed)
   sg = r._subgraph_index  # pylint: disable=protected-access
   out = {}
+  file_q = {}
+  for t in og.read(model_bytes).subgraphs[sg].tensors:
+    q = t.quantization
+    if q is not None and q.scale is not None and len(q.scale):
+      file_q[og.tname(t)] = (np.asarray(q.scale, dtype=np.float64),
+                             np.asarray(q.zeroPoint, dtype=np.float64), int(q.quantizedDimension))
   for det in it.get_tensor_details(sg):
     if not det['name'] or det['dtype'] == np.object_:
       continue
@@ -62,14 +68,15 @@ def own_run(model_bytes, key, sample):
       v = it.get_tensor(det['index'], sg)
     except ValueError:
       continue
-    qp = det['quantization_parameters']
+    # quantization parameters as the model FILE states them (a kernel may rewrite
+    # the interpreter's copy at run time, see F24)
+    ft = file_q.get(det['name'])
     v64 = v.astype(np.float64)
-    if len(qp['scales']):
-      sc = np.asarray(qp['scales'], dtype=np.float64)
-      zp = np.asarray(qp['zero_points'], dtype=np.float64)
+    if ft is not None:
+      sc, zp, qd = ft
       if len(sc) > 1:
         shape = [1] * v.ndim
-        shape[qp['quantized_dimension']] = len(sc)
+        shape[qd] = len(sc)
         sc, zp = sc.reshape(shape), zp.reshape(shape)
       v64 = (v64 - zp) * sc
     out[det['name']] = v64
@@ -108,7 +115,7 @@ def main():
   seed = int(os.environ.get('VERIF_SEED', '0'))
   rng = random.Random(seed * 982451653 % (2 ** 31) + 41)
   t0 = time.time()
-  n_models = 200 if tier == 'thorough' else 36
+  n_models = 800 if tier == 'thorough' else 80
   viol = []
   dist = collections.Counter()
   nontrivial = set()
@@ -117,9 +124,21 @@ def main():
   ship = gr.shipped()
   k = 0
   while k < n_models:
-    mb, info = gg.gen_model(rng, max_ops=rng.choice([3, 5, 8]))
+    # every 5th model: RSQRT on arbitrary (also negative) inputs, so that the
+    # FLOAT reference holds NaN/inf where the quantized model stays finite
+    nonfinite = (k % 5 == 3)
+    gg.RSQRT_ANY = nonfinite
+    try:
+      mb, info = gg.gen_model(rng, max_ops=rng.choice([3, 5, 8]),
+                              op_weights=(['RSQRT'] * 2 + gg.SUPPORTED) if nonfinite else None)
+    finally:
+      gg.RSQRT_ANY = False
+    dist['nonfinite_stream'] += int(nonfinite)
     qt = quantizer.Quantizer(bytearray(mb))
-    if rng.random() < 0.5:
+    if nonfinite and rng.random() < 0.7:
+      desc = 'default_a8w8_recipe'          # int8 RSQRT stays finite out of domain
+      qt.load_quantization_recipe(copy.deepcopy(ship[desc]))
+    elif rng.random() < 0.5:
       desc = rng.choice(gr.DEFAULT_SHIPPED)
       qt.load_quantization_recipe(copy.deepcopy(ship[desc]))
     else:
@@ -131,7 +150,11 @@ def main():
     data = gg.random_inputs(mb, rng, rng.choice([1, 2, 3]))
     inp = {'recipe': desc, 'model_hex': mb.hex() if len(mb) < 30000 else None}
     try:
-      stats = gr.own_stats(mb, data) if qt.need_calibration else None
+      cal = data
+      if nonfinite:     # calibrate INSIDE rsqrt's domain, validate outside it
+        cal = {k_: [{a: (np.abs(x) + np.float32(0.5)) if x.dtype == np.float32 else x
+                     for a, x in smp.items()} for smp in v_] for k_, v_ in data.items()}
+      stats = gr.own_stats(mb, cal) if qt.need_calibration else None
       qbytes = qt.quantize(stats).quantized_model
     except Exception as e:  # pylint: disable=broad-except
       dist['quantize_raises'] += 1
@@ -149,6 +172,11 @@ def main():
                                               validation_utils.get_validation_func(metric))
           target = mb
       except Exception as e:  # pylint: disable=broad-except
+        if nonfinite and 'Rsqrt is only defined for positive values' in str(e):
+          # the integer RSQRT kernel refuses out-of-domain test data: the
+          # RUNTIME rejects the input, there is no comparison to check
+          dist['runtime_refuses_out_of_domain_input'] += 1
+          continue
         viol.append({'key': f'C18:{mode}-raises', 'what': f'{type(e).__name__}: {str(e)[:200]}', 'input': inp})
         continue
       for key in data:
@@ -169,6 +197,9 @@ def main():
           for nm, v in ref.items():
             if nm in tg:
               per[nm].append(ref_metric(metric, tg[nm], v))
+              if mode == 'validate' and not np.all(np.isfinite(v)):
+                dist['ref_nonfinite'] += 1
+                dist['ref_nonfinite_target_finite'] += int(np.all(np.isfinite(tg[nm])))
         m_ref = og.read(mb)
         gref = m_ref.subgraphs[sg]
         consts = {og.tname(t) for t in gref.tensors if og.is_const(m_ref, t)}
